@@ -34,6 +34,9 @@
 #include <string>
 #include <unordered_map>
 #include <vector>
+#ifdef SYMX_SANITIZED
+#include <sanitizer/lsan_interface.h>
+#endif
 
 namespace symx {
 
@@ -61,6 +64,9 @@ struct Shared {
     std::atomic<long> paths, forks, queries, solver_us, obligations, discharged, violations, crashes, faults,
             maxdepth, cache_hits, syntactic, leaves, cex_seq, path_seq, witness_hits, infeasible, events;
     long max_paths;
+    // breadcrumbs: what a process was doing (harness-provided), readable by whoever reaps it after a crash
+    enum { NCRUMB = 4096, CRUMB_LEN = 1536 };
+    char crumbs[NCRUMB][CRUMB_LEN];
 };
 
 struct Engine;
@@ -104,7 +110,8 @@ struct Engine {
     long pc_atoms = 0;
     bool own_token = true;
     bool witness = false;
-    std::vector<std::pair<pid_t, std::string>> children; // concurrent children + their birth model
+    struct Child { pid_t first; std::string second; long path; };
+    std::vector<Child> children; // concurrent children + their birth model
     std::vector<std::string> notes;       // JSON members for the leaf record
     std::vector<std::string> obl;         // obligation records
     std::vector<std::string> okn;         // names of discharged obligations
@@ -129,6 +136,18 @@ inline void log_line(const std::string &s) {
         fputs(t.c_str(), stdout);
         fflush(stdout);
     }
+}
+
+inline std::string model_json();
+
+// record what this process is about to do (concrete enough to replay it) for crash reports
+inline void crumb(const std::string &text) {
+    Engine *e = E();
+    if (!e || !e->sh) return;
+    std::string t = text;
+    if (t.size() >= (size_t) Shared::CRUMB_LEN) t.resize(Shared::CRUMB_LEN - 1);
+    char *dst = e->sh->crumbs[e->path_id % Shared::NCRUMB];
+    memcpy(dst, t.c_str(), t.size() + 1);
 }
 
 inline std::string model_json() {
@@ -260,7 +279,7 @@ inline void assume(const z3::expr &a) {
 }
 
 // ---------------------------------------------------------------- process tree
-inline void reap_child(pid_t pid, const std::string &birth_model, bool concurrent) {
+inline void reap_child(pid_t pid, const std::string &birth_model, bool concurrent, long child_path = -1) {
     Engine *e = E();
     int st = 0;
     while (waitpid(pid, &st, 0) < 0 && errno == EINTR) {
@@ -271,7 +290,13 @@ inline void reap_child(pid_t pid, const std::string &birth_model, bool concurren
         std::ostringstream o;
         o << "{\"type\":\"crash\",\"case\":\"" << jesc(e->case_desc) << "\"," << e->case_json
           << (e->case_json.empty() ? "" : ",") << "\"signal\":" << (WIFSIGNALED(st) ? WTERMSIG(st) : 0)
-          << ",\"exit\":" << (WIFEXITED(st) ? WEXITSTATUS(st) : -1) << ",\"model\":" << birth_model << "}";
+          << ",\"exit\":" << (WIFEXITED(st) ? WEXITSTATUS(st) : -1) << ",\"model\":" << birth_model;
+        if (child_path >= 0) {
+            char *cb = e->sh->crumbs[child_path % Shared::NCRUMB];
+            cb[Shared::CRUMB_LEN - 1] = 0;
+            o << ",\"crumb\":\"" << jesc(cb) << "\"";
+        }
+        o << "}";
         log_line(o.str());
     }
 }
@@ -296,6 +321,7 @@ inline bool spawn(const z3::model &child_model) {
         e->own_token = concurrent;
         e->children.clear();
         e->path_id = child_path;
+        e->sh->crumbs[child_path % Shared::NCRUMB][0] = 0;
         e->depth++;
         long d = e->depth, md = e->sh->maxdepth.load();
         while (d > md && !e->sh->maxdepth.compare_exchange_weak(md, d)) {
@@ -304,9 +330,9 @@ inline bool spawn(const z3::model &child_model) {
         return true;
     }
     if (concurrent) {
-        e->children.emplace_back(pid, birth);
+        e->children.push_back(Engine::Child{pid, birth, child_path});
     } else {
-        reap_child(pid, birth, false);
+        reap_child(pid, birth, false, child_path);
     }
     return false;
 }
@@ -691,6 +717,10 @@ inline void note(const std::string &key, const std::string &json_value) {
             delete m;
         }
     }
+#ifdef SYMX_SANITIZED
+    // the library objects of this path are gone; anything LeakSanitizer finds now was allocated and never released
+    if (getenv("SYMX_LSAN")) require(__lsan_do_recoverable_leak_check() == 0, "C07:no-memory-leak(LeakSanitizer at end of path)");
+#endif
     e->sh->leaves++;
     std::ostringstream o;
     o << "{\"type\":\"leaf\",\"path\":" << e->path_id << ",\"depth\":" << e->depth << ",\"pc\":" << e->pc_atoms
@@ -717,7 +747,7 @@ inline void note(const std::string &key, const std::string &json_value) {
     fflush(stdout);
     fflush(stderr);
     if (e->own_token) sem_post(&e->sh->tokens);
-    for (auto &c : e->children) reap_child(c.first, c.second, true);
+    for (auto &c : e->children) reap_child(c.first, c.second, true, c.path);
     _exit(EXIT_OK);
 }
 
